@@ -532,6 +532,9 @@ func (db *MultiBucketBackend) PutObject(
 		}
 	}
 
+	_, statErr := db.bucketFs.Stat(objectFilePath)
+	existed := statErr == nil
+
 	f, err := db.bucketFs.Create(objectFilePath)
 	if err != nil {
 		// Do not leave the directories made for this key behind:
@@ -574,6 +577,14 @@ func (db *MultiBucketBackend) PutObject(
 		ModTime: stat.ModTime(),
 	}
 	if err := db.metaStore.saveMeta(db.metaStore.metaPath(bucketName, objectName), storedMeta); err != nil {
+		// The upload is refused. Do not leave a new object file behind that has
+		// no metadata: if its metadata can never be written (the metadata file's
+		// name is too long for the file system, say), every read of the key
+		// and every listing of the bucket would fail from now on.
+		if !existed {
+			db.bucketFs.Remove(objectFilePath)
+			db.removeEmptyDirsLocked(bucketName, path.Dir(objectPath))
+		}
 		return result, err
 	}
 
